@@ -48,7 +48,7 @@ def restore(root, snapshot):
                 fh.write(data)
 
 
-def run_forked(fn, timeout=120):
+def run_forked(fn, timeout=300):
     """Returns (status, value): status in {"ok", "exc", "killed", "died", "timeout"}."""
     r, w = os.pipe()
     sys.stdout.flush()
